@@ -119,6 +119,24 @@ func runLB(lc lcase) (fails []string, infra string, accepts int) {
 		}
 	}()
 	for _, st := range lc.Steps {
+		if st.Kind == "register" {
+			// OnBoot runs before the event-loops are registered with the balancer one by one: a
+			// registration made in that window is hashed over fewer loops. An accepted connection
+			// proves that the engine is up (the acceptor starts last).
+			w := &lconn{s: s, id: -1, closed: make(chan struct{})}
+			p, _, err := e.Connect(w)
+			if err != nil {
+				return s.fails, "warm-up connect: " + err.Error(), accepts
+			}
+			p.Close()
+			select {
+			case <-w.closed:
+			case <-time.After(5 * time.Second):
+			}
+			break
+		}
+	}
+	for _, st := range lc.Steps {
 		switch st.Kind {
 		case "open":
 			c := &lconn{s: s, id: accepts, closed: make(chan struct{})}
